@@ -251,6 +251,11 @@ func (vc *VC) eval(e *SExpr, env *Env) *Val {
 				bt = fmt.Sprintf("(and %s %s)", g, bt)
 			}
 		}
+		if !allRefs {
+			if pats := selectPatterns(bt, qnames); pats != "" {
+				return &Val{T: fmt.Sprintf("(%s (%s) (! %s %s))", e.Name, strings.Join(decls, " "), bt, pats), Ty: types.Typ[types.Bool]}
+			}
+		}
 		if pats := refPatterns(bt, qnames, allRefs); pats != "" {
 			return &Val{T: fmt.Sprintf("(%s (%s) (! %s %s))", e.Name, strings.Join(decls, " "), bt, pats), Ty: types.Typ[types.Bool]}
 		}
@@ -1323,4 +1328,58 @@ func containsWord(s, w string) bool {
 		}
 		i = j + len(w)
 	}
+}
+
+
+// selectPatterns chooses triggers for a quantifier with a single bound
+// variable that is used as a map key or ghost-map index: the terms
+// (select A q) in which A does not mention any bound variable.  Without this
+// the solver tends to pick the range guard (slen q) as the trigger.
+func selectPatterns(body string, qnames []string) string {
+	if len(qnames) != 1 {
+		return ""
+	}
+	q := qnames[0]
+	seen := map[string]bool{}
+	var pats []string
+	needle := " " + q + ")"
+	for i := 0; ; {
+		j := strings.Index(body[i:], needle)
+		if j < 0 {
+			break
+		}
+		end := i + j + len(needle) // one past the closing paren
+		// walk back to the matching open paren
+		depth := 0
+		start := -1
+		for k := end - 1; k >= 0; k-- {
+			if body[k] == ')' {
+				depth++
+			} else if body[k] == '(' {
+				depth--
+				if depth == 0 {
+					start = k
+					break
+				}
+			}
+		}
+		i = end
+		if start < 0 {
+			continue
+		}
+		t := body[start:end]
+		if !strings.HasPrefix(t, "(select ") || seen[t] {
+			continue
+		}
+		inner := t[len("(select ") : len(t)-len(needle)]
+		if strings.Contains(inner, "q_") || strings.Contains(inner, "(ite ") || containsWord(inner, q) {
+			continue
+		}
+		seen[t] = true
+		pats = append(pats, ":pattern ("+t+")")
+		if len(pats) >= 6 {
+			break
+		}
+	}
+	return strings.Join(pats, " ")
 }
